@@ -324,6 +324,14 @@ example : ∀ i, 2 ≤ i → (fun a => a == [0, 1]) (pathCurve.addrOf (pathCurve
 example : restoreBranch pathCurve.toScheme [0] (fun a => a == [0, 1] || a == [0, 3]) 2 1 100
     = .ok (4, [(0, [0, 0]), (1, [0, 1]), (2, [0, 2]), (3, [0, 3])]) := by rfl
 
+/-- non-vacuity of restore_discovers_wallet: an import that succeeds (gap 2, hint 0, chain paying index 1) -/
+example : ∃ ks' id, importMnemonic pathCurve.toScheme ({ pubPass := "q" } : KS (List Nat) (List Nat) (List Nat))
+    "m" "p" 1 0 0 (fun a => a == [0, 1]) 2 100 = .ok (ks', id) := ⟨_, _, rfl⟩
+/-- non-vacuity of refuse_iff / gap_at_issue: a refused and a granted request on well-formed states -/
+example : nextAddresses pathCurve.toScheme w0.r w0.m w0.used false 1 2 =
+    .ok (recAfter pathCurve.toScheme w0.r, [mkAddr pathCurve.toScheme [0, 0] 0 0]) := by rfl
+example : (runW pathCurve.toScheme 2 w0 [.issue, .issue, .issue]).2 = [.ok [0, 0], .ok [0, 1], .error .gapLimit] := by rfl
+
 -- ------------------------------------------------------------------ the used flag
 
 section
